@@ -112,6 +112,25 @@ def bits_add(x, y, w, sub=False):
     return out
 
 
+def str_cat(a, b):
+    """Concatenation of (possibly abstract) strings: ('str', text) | ('num', IV) | ('cat', [parts])."""
+    def parts(x):
+        if isinstance(x, tuple) and x[0] == 'cat':
+            return list(x[1])
+        if isinstance(x, tuple) and x[0] in ('str', 'num'):
+            return [x]
+        return [('opaque', x)]
+    out = []
+    for p_ in parts(a) + parts(b):
+        if out and out[-1][0] == 'str' and p_[0] == 'str':
+            out[-1] = ('str', out[-1][1] + p_[1])
+        else:
+            out.append(p_)
+    if len(out) == 1:
+        return out[0]
+    return ('cat', out)
+
+
 class Vec:
     """A sequence container (std::vector) of abstract objects."""
 
@@ -831,7 +850,23 @@ class Interp:
                 return const(1, False, int(eq if name == 'operator==' else not eq))
             if name == 'operator+':
                 a, b = self.expr(args[0], env), self.expr(args[1], env)
-                return ('str', str(a[1] if isinstance(a, tuple) else a) + str(b[1] if isinstance(b, tuple) else b))
+                return str_cat(a, b)
+            if name == 'operator+=':
+                lv = self.lval(args[0], env)
+                v = str_cat(self.load(lv, env), self.expr(args[1], env))
+                self.store(lv, v, env)
+                return v
+            if name == 'operator%':
+                a, b = self.expr(args[0], env), self.expr(args[1], env)
+                if isinstance(a, tuple) and a[0] == 'str':
+                    a = ('fmt', a[1], [])
+                if isinstance(a, tuple) and a[0] == 'fmt':
+                    return ('fmt', a[1], a[2] + [b])
+                raise AnalysisBroken('operator%% on %r at %s' % (a, pos(n)))
+            if name == 'operator<<':
+                a, b = self.expr(args[0], env), self.expr(args[1], env)
+                self.events.append(('print', a, b))
+                return a
             raise AnalysisBroken('unsupported operator call %s at %s' % (name, pos(n)))
         if kind == 'function':
             if name == 'abs':
@@ -850,6 +885,8 @@ class Interp:
             f = self.idx.func_by_id.get(did)
             if f is not None and (f.body is not None or getattr(f, 'defn', None)):
                 return self.invoke(f, None, [self.expr(a, env) for a in args], n)
+            if name == 'to_string':
+                return ('num', self.expr(args[0], env))
             raise AnalysisBroken('unmodelled call of %s at %s' % (name, pos(n)))
         if kind == 'method':
             o = self.expr(obj, env) if obj is not None else None
@@ -872,6 +909,8 @@ class Interp:
                     k_ = k_[1] if isinstance(k_, tuple) else k_
                     return const(64, False, 1 if k_ in o else 0)
                 raise AnalysisBroken('unmodelled map operation %s at %s' % (name, pos(n)))
+            if isinstance(o, tuple) and o and o[0] in ('str', 'cat', 'num', 'fmt') and name in ('c_str', 'str', 'data'):
+                return o
             if isinstance(o, Obj):
                 f = self.resolve_method(o, name, did)
                 if f is None:
